@@ -119,6 +119,7 @@ def network_simplex(
             state[arc] = 0
 
     iterations = 0
+    optimal = False
 
     while iterations < max_iter:
         iterations += 1
@@ -141,7 +142,8 @@ def network_simplex(
                 entering = arc
 
         if entering == -1:
-            break  # Optimal: no improving arc found
+            optimal = True  # no improving arc found
+            break
 
         u, v = source[entering], target[entering]
         rc = cost[entering] - pi[u] + pi[v]
@@ -251,6 +253,10 @@ def network_simplex(
                     else:
                         pi[v] = pi[u] + cost[arc]
                     stack.append(v)
+
+    if not optimal:
+        # Out of iterations: flow left on artificial arcs proves nothing about feasibility
+        return Result(None, float("inf"), iterations, total_arcs, Status.MAX_ITER)
 
     for arc in range(m, total_arcs):
         if flow[arc] > 0:
